@@ -26,6 +26,7 @@ PROPS = {
             U("c01_next_infoset_search", ["C01.V.next_infoset_search.value", "C01.V.next_infoset_search.queue_empty"]),
             U("c01_optdev_resolve", ["C01.V.optimal_deviations.best_action_value", "C01.V.optimal_deviations.pending_count", "C01.V.optimal_deviations.nodes_consumed"]),
             U("c01_optdev_collect", ["C01.V.optimal_deviations.collect_step"]),
+            U("c01_optdev_seed", ["C01.V.optimal_deviations.seed"]),
             U("c01_regret_wrapper", ["C01.V.regret.utility", "C01.V.regret.player_one", "C01.V.regret.player_two"]),
             U("split_by", ["V.SplitsBy.next.partition"]),
         ],
@@ -47,6 +48,8 @@ PROPS = {
         verus=[U("c08_advance_order", ["C02.V.advance.reports_bound"]),
                U("c08_recurse_player", ["C08.V.recurse_player.update (counterfactual weight: opponent reach x chance reach, sign for player two)"]),
                U("c08_chance_reach", ["C08.V.chance_reach.product_along_path"]),
+               U("c09_generic_single", ["C09.V.first_below (the early stop the property speaks of)"]),
+               U("c09_generic_multi", ["C09.V.first_below"]),
                U("c06_threshold_player_step", ["C06.V.thread_threshold.frontier_reach"])],
         kani_functions=["src/solve/data.rs :: impl RegretParams / fn cum_regret", "src/lib.rs :: impl RegretBound / fn new, player_regret_bound, regret_bound"],
         trusted_base=["CFR regret theorem (Zinkevich et al. 2007, Thm 3-4)"],
@@ -64,6 +67,8 @@ PROPS = {
                    "sound interval model in the softmax harness.",
         verus=[U("c05_avg_strat", ["C05.V.avg_strat.sums_to_one", "C05.V.avg_strat.normalised", "C05.V.avg_strat.uniform_when_empty"]),
                U("c05_into_avg_strat", ["C05.V.into_avg_strat.normalised"]),
+               U("c08_discount", ["C08.V.gen_discount.value (the discount factor is t^a/(t^a+1): a number, never NaN)"]),
+               U("c07_external_fresh", ["C07.V.single_player_iter.frontier_follows_sampled_player (an index panic otherwise)"]),
                U("c05_solve_dispatch", ["C05.V.solve.one_thread_never_errors", "C05.V.solve.thread_overflow", "C05.V.solve.multi_dispatch", "C05.V.solve.result_plumbing"]),
                U("c08_advance_order", ["C02.V.advance.reports_bound (the bound is computed with the caller's iteration number >= 1, hence a number)"])],
         kani_functions=["src/solve/data.rs :: fn avg_strat", "src/solve/data.rs :: impl RegretParams / fn regret_match", "src/solve/data.rs :: impl RegretInfoset / fn new"],
@@ -80,6 +85,9 @@ PROPS = {
                    "assumed contracts restating the anchor / rayon documentation.",
         verus=[U("c06_generic_multi_fresh", ["C06.V.solve_generic_multi.workspace_fresh"]),
                U("c06_threshold_player_step", ["C06.V.thread_threshold.frontier_reach"]),
+               U("c06_recurse_multi_cache", ["C06.V.recurse_multi.cache_hit", "C06.V.recurse_multi.miss_traverses", "C06.V.cached_payoff.unit_is_empty"]),
+               U("c09_generic_single", ["C09.V.first_below (single- and multi-threaded loops obey the same stopping contract)"]),
+               U("c09_generic_multi", ["C09.V.first_below"]),
                U("c08_chance_reach", ["C08.V.chance_reach.product_along_path (recurse_multi passes the same reaches as recurse_single)"]),
                U("c08_advance_order", ["C08.V.advance.order: MutexRegretInfoset::advance obeys the same contract as the single-threaded RegretInfoset::advance"])],
         
@@ -97,6 +105,8 @@ PROPS = {
         level_note="Schedules and the uniqueness of the visit behind try_lock().unwrap() are NOT decided.",
         verus=[U("c07_external_fresh", ["C07.V.single_player_iter.workspace_fresh", "C07.V.solve_external_multi.workspace_fresh"]),
                U("c06_generic_multi_fresh", ["C06.V.solve_generic_multi.workspace_fresh"]),
+               U("c05_into_avg_strat", ["C05.V.into_avg_strat.normalised (the multi-threaded extraction uses the same normalisation)"]),
+               U("c09_external_single", ["C09.V.first_below"]), U("c09_external_multi", ["C09.V.first_below"]),
                U("c10_sampled_chance", ["C10.V.sampled_chance.cache_hit", "C10.V.sampled_chance.reset"]),
                U("c10_cached_infoset", ["C10.V.cached_infoset.cache_hit"]),
                U("c08_advance_order", ["C10.V.cached_infoset.advance_resets_draw"])],
@@ -119,6 +129,10 @@ PROPS = {
                U("c08_update_cum_strat", ["C08.V.update_cum_strat.vanilla", "C08.V.update_cum_strat.external"]),
                U("c08_external_recurse", ["C08.V.external.recurse"]),
                U("c08_recurse_player", ["C08.V.recurse_player.update"]),
+               U("c06_generic_multi_fresh", ["C06.V.solve_generic_multi.workspace_fresh (a stale cache skips updates)"]),
+               U("c07_external_fresh", ["C07.V.single_player_iter.workspace_fresh"]),
+               U("c09_generic_single", ["C09.V.first_below (T iterations means T iterations)"]), U("c09_generic_multi", ["C09.V.first_below"]),
+               U("c09_external_single", ["C09.V.first_below"]), U("c09_external_multi", ["C09.V.first_below"]),
                U("c08_chance_reach", ["C08.V.chance_reach.product_along_path"])],
         kani_functions=["src/solve/data.rs :: impl RegretParams / fn new, vanilla, lcfr, cfr_plus, dcfr, dcfr_prune, gen_discount, regret_match, discount_cum_regret, discount_average_strat",
                         "src/solve/data.rs :: impl Default for RegretParams"],
@@ -171,7 +185,10 @@ PROPS = {
                    "block of the dense vector, then the single-action infosets in order.",
         level_note="Representation invariant assumed at method entry (constructor + preservation proved). Action iterator "
                    "(find/filter/count chains) handled by bounded Kani harnesses.",
-        verus=[U("c13_named_iter", ["C13.V.NamedStrategyIter.exact_size", "C13.V.NamedStrategyIter.kth_block"])],
+        verus=[U("c13_named_iter", ["C13.V.NamedStrategyIter.exact_size", "C13.V.NamedStrategyIter.kth_block"]),
+               U("c18_truncate_sums_to_one", ["C18.V.truncate.sums_to_one (the named view of a truncated profile still sums to one)"]),
+               U("c18_truncate_block", ["C18.V.truncate.rescale"]),
+               U("c14_normalise", ["C14.V.normalise.weight_over_total (importing the view back yields the profile)"])],
         kani_functions=["src/lib.rs :: impl Strategies / fn as_named", "src/lib.rs :: impl Iterator for NamedStrategyActionIter / fn next, size_hint"],
         trusted_base=["representation-invariant induction (constructor + preservation + field privacy)"],
         not_decided=["round trip through the hashing importer"],
